@@ -38,7 +38,7 @@ CLASSES = [
     "late_opt_dt", "late_opt_terminal_psi", "late_opt_multiplier_high", "late_opt_drag_zero", "late_opt_sparse_unknown",
     "opt_dt_fixed_step", "terminal_moved_off_boundary_after_solve", "single_terminal_with_current", "single_terminal_with_callable_current",
     "terminal_tiny_on_vertex", "seed_device_without_terminals", "seed_device_first_terminal_only", "seed_device_fewer_holes",
-    "polygon_self_intersecting", "polygon_invalid_any_input_form", "polygon_scaled_to_nothing", "polygon_two_points", "polygon_bad_shape", "film_unnamed", "hole_unnamed", "hole_duplicate_names",
+    "polygon_self_intersecting", "polygon_invalid_any_input_form", "polygon_scaled_to_nothing", "polygon_setop_not_simply_connected", "polygon_two_points", "polygon_bad_shape", "film_unnamed", "hole_unnamed", "hole_duplicate_names",
     "terminal_duplicate_names", "terminal_unnamed", "probe_outside_film", "probe_in_hole", "probe_bad_shape",
 ]
 OBSERVATION_CLASSES = ["unbalanced_callable_narrow_window", "unknown_terminal_zero_current"]
@@ -169,6 +169,33 @@ def run_case(spec):
                 stage = "polygon"; submitted = True
                 good = tdgl.Polygon("p", points=tdgl.geometry.box(2.0, 1.0))
                 good.scale(xfact=0.0, yfact=1.0)
+            elif cls == "polygon_setop_not_simply_connected":
+                # a set operation whose result is not a simply-connected outline (a ring, two pieces, nothing) is no polygon: every way
+                # of asking for it is refused; it never comes back as the filled-in or the first piece
+                stage = "polygon"
+                submitted = True
+                outer = tdgl.Polygon("outer", points=tdgl.geometry.box(4.0, 3.0))
+                accepted = []
+                for frac in (0.5, 1e-2, 1e-4):
+                    inner = tdgl.Polygon("inner", points=tdgl.geometry.box(4.0 * frac, 3.0 * frac, center=(0.3, -0.2)))
+                    away = tdgl.Polygon("away", points=tdgl.geometry.box(1.0, 1.0, center=(10.0, 0.0)))
+                    tries = {
+                        "outer.difference(inner)": lambda: outer.difference(inner),
+                        "outer - inner": lambda: outer - inner,
+                        "from_difference": lambda: tdgl.Polygon.from_difference([outer, inner], name="r"),
+                        "outer.union(away)": lambda: outer.union(away),
+                        "outer.intersection(away)": lambda: outer.intersection(away),
+                    }
+                    for tname, fn in tries.items():
+                        C["setop_rejections_tried"] = C.get("setop_rejections_tried", 0) + 1
+                        try:
+                            r_ = fn()
+                            accepted.append(f"{tname} (inner = {frac} of outer) -> area {float(r_.area):.6g}")
+                        except (ValueError, TypeError):
+                            pass
+                if accepted:
+                    V.append({"kind": "ill_posed_problem_accepted", "mechanism": "accepted_polygon_setop_not_simply_connected", "detail": {"accepted": accepted[:6]}})
+                raise ValueError("(harness) every set operation was tried")
             elif cls == "polygon_two_points":
                 stage = "polygon"; submitted = True
                 tdgl.Polygon("p", points=np.array([[0.0, 0.0], [1.0, 1.0]]))
